@@ -209,3 +209,81 @@ Proof.
 Qed.
 Print Assumptions restrict_cube.
 Print Assumptions constrain_cube.
+
+(* ---------------- restrict depends only on the variables f depends on ---------------- *)
+(* G is supported in vs: its value is determined by the listed variables (the care set's diagram mentions only listed ones) *)
+Definition supp_in (vs : list N) (G : bfun) : Prop := forall a b, (forall w, In w vs -> a w = b w) -> G a = G b.
+Lemma supp_in_ext vs G : supp_in vs G -> ext G.
+Proof. intros H a b E. apply H. intros w _. apply E. Qed.
+Lemma supp_in_cof v vs G c : supp_in (v :: vs) G -> supp_in vs (cof G v c).
+Proof.
+  intros H a b E. unfold cof. apply H. intros w [<-|Hw]; [now rewrite !upd_eq|].
+  unfold upd. destruct (N.eqb w v); [reflexivity|apply E; exact Hw].
+Qed.
+Lemma supp_in_bor vs G0 G1 : supp_in vs G0 -> supp_in vs G1 -> supp_in vs (bor G0 G1).
+Proof. intros H0 H1 a b E. unfold bor. now rewrite (H0 a b E), (H1 a b E). Qed.
+Lemma unsat_supp vs G e e' : supp_in vs G -> unsat vs G e = unsat vs G e'.
+Proof.
+  intro HS. pose proof (supp_in_ext vs G HS) as HG.
+  assert (Dir : forall x y, unsat vs G x = true -> unsat vs G y = true).
+  { intros x y Hx. rewrite unsat_true in * by exact HG. intros a Ha.
+    rewrite <- (Hx (fun w => if in_dec N.eq_dec w vs then a w else x w)).
+    - apply HS. intros w Hw. destruct (in_dec N.eq_dec w vs); [reflexivity|contradiction].
+    - intros w Hw. destruct (in_dec N.eq_dec w vs); [contradiction|reflexivity]. }
+  destruct (unsat vs G e) eqn:U, (unsat vs G e') eqn:U'; try reflexivity.
+  - rewrite (Dir e e' U) in U'. discriminate.
+  - rewrite (Dir e' e U') in U. discriminate.
+Qed.
+Lemma differ_upd_indep vs F1 F2 e w b : ext F1 -> ext F2 -> indep F1 w -> indep F2 w ->
+  differ vs F1 F2 (upd e w b) = differ vs F1 F2 e.
+Proof.
+  intros H1 H2 I1 I2.
+  assert (Dir : forall x y, (forall u, u <> w -> x u = y u) -> differ vs F1 F2 x = false -> differ vs F1 F2 y = false).
+  { intros x y Hxy Hx. rewrite differ_false in * by assumption. intros a Ha.
+    specialize (Hx (upd a w (if in_dec N.eq_dec w vs then a w else x w))).
+    rewrite I1, I2 in Hx. apply Hx. intros u Hu. destruct (N.eq_dec u w) as [->|Hne].
+    - rewrite upd_eq. destruct (in_dec N.eq_dec w vs); [contradiction|reflexivity].
+    - rewrite upd_neq by assumption. rewrite Ha by assumption. symmetry. apply Hxy. exact Hne. }
+  assert (Hsym : forall u, u <> w -> upd e w b u = e u) by (intros u Hu; apply upd_neq; exact Hu).
+  destruct (differ vs F1 F2 (upd e w b)) eqn:D, (differ vs F1 F2 e) eqn:D'; try reflexivity.
+  - rewrite (Dir e (upd e w b) (fun u Hu => eq_sym (Hsym u Hu)) D') in D. discriminate.
+  - rewrite (Dir (upd e w b) e Hsym D) in D'. discriminate.
+Qed.
+Lemma indep_cof F v c w : indep F w -> ext F -> indep (cof F v c) w.
+Proof.
+  intros HI HF e b. unfold cof. destruct (N.eq_dec w v) as [->|Hne].
+  - apply HF. intro u. unfold upd. destruct (N.eqb u v); reflexivity.
+  - rewrite <- (HI (upd e v c) b). apply HF. intro u. unfold upd.
+    destruct (N.eqb_spec u v) as [Euv|Nuv]; destruct (N.eqb_spec u w) as [Euw|Nuw]; try reflexivity. exfalso. apply Hne. congruence.
+Qed.
+Lemma differ_same vs (F1 F2 : bfun) e : (forall a, F1 a = F2 a) -> differ vs F1 F2 e = false.
+Proof.
+  intro H. unfold differ. destruct (existsb _ _) eqn:X; [|reflexivity]. apply existsb_exists in X. destruct X as (a & _ & Hx).
+  rewrite H, xorb_nilpotent in Hx. discriminate.
+Qed.
+
+Theorem rspec_indep : forall vs (F G : bfun) w e b, ext F -> supp_in vs G -> NoDup vs -> indep F w ->
+  rspec vs F G (upd e w b) = rspec vs F G e.
+Proof.
+  induction vs as [|v vs IH]; intros F G w e b HF HS Hnd HI; cbn [rspec]; [apply HI|].
+  inversion Hnd as [|? ? Hv Hnd']; subst.
+  assert (HSc : forall c, supp_in vs (cof G v c)) by (intro c; apply supp_in_cof; exact HS).
+  assert (HFc : forall c, ext (cof F v c)) by (intro c; apply ext_cof; exact HF).
+  assert (HIc : forall c, indep (cof F v c) w) by (intro c; apply indep_cof; assumption).
+  rewrite (unsat_supp vs (cof G v true) (upd e w b) e (HSc true)), (unsat_supp vs (cof G v false) (upd e w b) e (HSc false)).
+  rewrite (differ_upd_indep vs (cof F v false) (cof F v true) e w b (HFc false) (HFc true) (HIc false) (HIc true)).
+  destruct (unsat vs (cof G v true) e); [apply IH; auto|].
+  destruct (unsat vs (cof G v false) e); [apply IH; auto|].
+  destruct (differ vs (cof F v false) (cof F v true) e) eqn:D.
+  - destruct (N.eq_dec w v) as [->|Hne].
+    + (* f does not depend on v: its two cofactors coincide, so this branch is not taken *)
+      exfalso. rewrite differ_same in D; [discriminate|]. intro a. unfold cof. now rewrite !HI.
+    + rewrite upd_neq by congruence. destruct (e v); apply IH; auto.
+  - apply IH; auto. apply supp_in_bor; auto.
+Qed.
+Theorem restrict_support vs (F G : bfun) w : ext F -> supp_in vs G -> NoDup vs -> indep F w -> indep (restrict_spec vs F G) w.
+Proof.
+  intros HF HS Hnd HI e b. unfold restrict_spec. rewrite (unsat_supp vs G (upd e w b) e HS).
+  destruct (unsat vs G e); [reflexivity|]. apply rspec_indep; assumption.
+Qed.
+Print Assumptions restrict_support.
